@@ -57,6 +57,10 @@ def do_fail(run, op):
                 setattr(line, op[3], op[4])
             else:
                 line.set(op[3], op[4])
+        elif kind == "rename":
+            rec = run.model.recs[op[2]]
+            line = run.find_line(rec)
+            line.name = op[3]
         elif kind == "rm":
             g.rm(op[2])
         elif kind == "try_get":
@@ -216,6 +220,11 @@ def build_fail(st, r):
                  "E": ["sid1", "sid2", "beg1", "end2"], "G": ["sid1", "sid2"], "F": ["sid"], "P": ["segment_names"],
                  "O": ["items"], "U": ["items"]}[rt]
         return ["fail", "set", i, gen.choice(r, field), "A", gen.choice(r, ["set", "attr"]), "readonly_field"]
+    if k == 7 and gen.chance(r, 0.5) and real_named:
+        # an identifier which is not valid for the record type (refused at vlevel 3)
+        i = next(i_ for i_, x in enumerate(m.recs) if x is gen.choice(r, real_named) or True)
+        cands = [i_ for i_, x in enumerate(m.recs) if M.name_of(x) is not None and not (version == "gfa1" and x.rt in "LC")]
+        return ["fail", "rename", gen.choice(r, cands), gen.choice(r, ["a b", "x\ty", "é"]), "invalid_name_vlevel3"]
     if k == 7:
         return ["fail", gen.choice(r, ["rm", "try_get"]), gen.choice(r, ["nowhere", "*", fa]), "unknown_name"]
     if k == 8:
@@ -264,7 +273,7 @@ def gen_case(r, version):
             f = build_fail(st_, r)
             if f is None:
                 continue
-            if f[-1] == "invalid_value_vlevel3" and vlevel < 3:
+            if f[-1] in ("invalid_value_vlevel3", "invalid_name_vlevel3") and vlevel < 3:
                 continue
             if f[-1] == "header_datatype_clash" and vlevel < 2:
                 continue
